@@ -1,6 +1,7 @@
 package main
 
 import (
+	"sort"
 	"fmt"
 	"strings"
 
@@ -16,6 +17,15 @@ type subsetRun struct {
 }
 
 func runSubset(t *GT, rc *RunCfg, bind *Binding, directive string) subsetRun {
+	if rc.VarNames == nil {
+		// register the variables of the expression (without this every expression with a variable is a compile error)
+		vs := map[string]bool{}
+		collectVars(t, vs)
+		for n := range vs {
+			rc.VarNames = append(rc.VarNames, n)
+		}
+		sort.Strings(rc.VarNames)
+	}
 	b := rc.Build()
 	src := directive + t.Src()
 	e, err, pan := compileSafe(b.Conf, src)
@@ -96,7 +106,7 @@ func init() {
 		ID:   "C02",
 		Rule: "random typed trees (no failing variables; operators may fail, e.g. division by zero behind guards) x ALL 16 optimisation subsets set programmatically and again by `;;;;` directive comments x cost maps (integers incl. negative, zero, 2^40) x stateless declarations x bindings of all variables: (a) all configurations that return a value return the same one, (b) with Reordering off every configuration returns the unoptimised value when that evaluation succeeds, (c) directive and programmatic configuration give the same Dump and result, (d) Go's optimised tree equals the model's `optimize` and its Eval equals `sem` of it; non-trivial = at least two configurations returned a value; distinct = distinct (source, costs, binding)",
 		Assumptions: []string{"cost maps are integer-valued (exact in float64); NaN/Inf costs are covered by the theorem for arbitrary permutations, not by the correspondence"},
-		Behav:       []int{5, 2}, Fidelity: []int{1, 3, 4, 8, 9, 10, 15}, Ignore: []int{6, 7, 50}, CodeText: evalCodeText,
+		Behav:       []int{5, 2, 17}, Fidelity: []int{1, 3, 4, 8, 9, 10, 15}, Ignore: []int{6, 7, 50, 16}, CodeText: evalCodeText,
 		Gen: func(c *RunCtx) []*Batch {
 			r := c.R
 			b := evalBatch("C02", "optimise")
@@ -112,6 +122,12 @@ func init() {
 					// nested same-kind and/or groups that flatten to 100..300 operands, consumed by an enclosing operator:
 					// legal as written; subsets with ReduceNesting may reject it (capacity), none may change the value
 					t = wideNested(r)
+				}
+				if k%5 == 3 {
+					t = logicNest(r, 2+r.Intn(2))
+					if t.Kind != "op" {
+						t = gop("c_id", t)
+					}
 				}
 				st, costs := randStateless(r), randCosts(r)
 				bind := randBinding(r)
